@@ -442,3 +442,194 @@ Proof.
   destruct fn; try discriminate Hfn; cbn [block_mode is_enc inv_op des_gen_subkeys] in *; subst ce cd;
     unfold tdes_blk; cbn [t_op t_mode t_ks1 t_ks2 t_ks3]; exact H.
 Qed.
+
+(* ---------- any partition into one or more calls, at the API level ---------- *)
+Lemma run_calls_ext : forall (Inv : st -> Prop) (f g : st -> list N -> cres),
+  (forall s m, Inv s -> f s m = g s m) -> (forall s m, Inv s -> Inv (r_st (g s m))) ->
+  forall chunks s, Inv s -> run_calls f s chunks = run_calls g s chunks.
+Proof.
+  intros Inv f g Hfg Hinv. induction chunks as [|c r IH]; intros s Hs; [reflexivity|].
+  cbn [run_calls]. rewrite (Hfg s c Hs). rewrite (IH _ (Hinv s c Hs)). reflexivity.
+Qed.
+
+Definition off_inv (bs : nat) (s : st) : Prop := s_off s < N.of_nat bs.
+Definition ctr_inv (bs : nat) (s : st) : Prop := s_off s < N.of_nat bs /\ bytes (s_iv s).
+
+Section StreamInv.
+  Variable bs : nat.
+  Variable E : list N -> list N.
+  Variable nwords : nat.
+  Variable incr : list N -> list N.
+  Hypothesis mask_lt : forall x, N.land x (mask bs) < N.of_nat bs.
+
+  Lemma run_cfb_inv : forall enc s m, off_inv bs s -> off_inv bs (r_st (run_cfb bs E enc s m)).
+  Proof.
+    intros enc s m H. unfold off_inv, run_cfb in *. pose proof (cfb_off_lt bs E mask_lt enc m (s_iv s) (s_off s) H) as L.
+    destruct (cfb_loop bs E enc (s_iv s) (s_off s) m) as [[? ?] ?]. exact L.
+  Qed.
+  Lemma run_ofb_inv : forall s m, off_inv bs s -> off_inv bs (r_st (run_ofb bs E s m)).
+  Proof.
+    intros s m H. unfold off_inv, run_ofb in *. pose proof (ofb_off_lt bs E mask_lt m (s_iv s) (s_off s) H) as L.
+    destruct (ofb_loop bs E (s_iv s) (s_off s) m) as [[? ?] ?]. exact L.
+  Qed.
+  Lemma run_ctr_inv : forall s m, ctr_inv bs s -> ctr_inv bs (r_st (run_ctr bs E nwords incr s m)).
+  Proof.
+    intros s m [H Hb]. unfold ctr_inv, run_ctr in *.
+    pose proof (ctr_off_lt bs E incr mask_lt m (words_of_bytes nwords (s_iv s)) (s_off s) (s_sb s) H) as L.
+    destruct (ctr_loop bs E incr (words_of_bytes nwords (s_iv s)) (s_off s) (s_sb s) m) as [[[? ?] ?] ?].
+    split; [exact L|apply bytes_of_words_bytes].
+  Qed.
+End StreamInv.
+
+Definition accepted (x : bool * list N * st) : Prop := fst (fst x) = true.
+
+Theorem aes_stream_any_partition_api : forall fn c s c0 chunks,
+  stream_mode fn = true -> a_mode c = fn -> op_valid (a_op c) = true -> st_ok 16 s ->
+  run_calls (aes_call fn all_ptrs c) s (c0 :: chunks) = one_call (aes_call fn all_ptrs c) s (concat (c0 :: chunks))
+  /\ accepted (one_call (aes_call fn all_ptrs c) s (concat (c0 :: chunks))).
+Proof.
+  intros fn c s c0 chunks Hfn Hm Hop [[Hivl Hivb] Hoff]. destruct c as [o md rk]. cbn [a_mode a_op] in *. subst md.
+  destruct fn; try discriminate Hfn.
+  - (* CFB *)
+    assert (Hfg : forall s m, off_inv 16 s -> aes_call CFB all_ptrs {| a_op := o; a_mode := CFB; a_rk := rk |} s m
+                                             = run_cfb 16 (cipher rk) (is_enc o) s m).
+    { intros s0 m0 H0. unfold aes_call, aes_cfb128. api_cbn. rewrite (off_ok_true 16 s0 H0), Hop. api_cbn. reflexivity. }
+    rewrite (run_calls_ext (off_inv 16) _ _ Hfg (fun s m => run_cfb_inv 16 (cipher rk) mask16_lt (is_enc o) s m) _ s Hoff).
+    rewrite run_cfb_partition. unfold one_call. rewrite (Hfg s _ Hoff). split; [reflexivity|].
+    unfold accepted, run_cfb. destruct (cfb_loop _ _ _ _ _ _) as [[? ?] ?]. reflexivity.
+  - (* OFB *)
+    assert (Hfg : forall s m, off_inv 16 s -> aes_call OFB all_ptrs {| a_op := o; a_mode := OFB; a_rk := rk |} s m
+                                             = run_ofb 16 (cipher rk) s m).
+    { intros s0 m0 H0. unfold aes_call, aes_ofb128. api_cbn. rewrite (off_ok_true 16 s0 H0), Hop. api_cbn. reflexivity. }
+    rewrite (run_calls_ext (off_inv 16) _ _ Hfg (fun s m => run_ofb_inv 16 (cipher rk) mask16_lt s m) _ s Hoff).
+    rewrite run_ofb_partition. unfold one_call. rewrite (Hfg s _ Hoff). split; [reflexivity|].
+    unfold accepted, run_ofb. destruct (ofb_loop _ _ _ _ _) as [[? ?] ?]. reflexivity.
+  - (* CTR *)
+    assert (Hfg : forall s m, ctr_inv 16 s -> aes_call CTR all_ptrs {| a_op := o; a_mode := CTR; a_rk := rk |} s m
+                                             = run_ctr 16 (cipher rk) 2 incr_aes s m).
+    { intros s0 m0 [H0 _]. unfold aes_call, aes_ctr. api_cbn. rewrite (off_ok_true 16 s0 H0), Hop. api_cbn. reflexivity. }
+    rewrite (run_calls_ext (ctr_inv 16) _ _ Hfg (fun s m => run_ctr_inv 16 (cipher rk) 2 incr_aes mask16_lt s m) _ s (conj Hoff Hivb)).
+    rewrite (run_ctr_partition 16 (cipher rk) 2 incr_aes incr_aes_wfw) by exact Hivb.
+    unfold one_call. rewrite (Hfg s _ (conj Hoff Hivb)). split; [reflexivity|].
+    unfold accepted, run_ctr. destruct (ctr_loop _ _ _ _ _ _ _) as [[[? ?] ?] ?]. reflexivity.
+Qed.
+
+Theorem d_stream_any_partition : forall blk o fn s c0 chunks,
+  stream_mode fn = true -> op_valid o = true -> st_ok 8 s ->
+  run_calls (d_call blk o fn fn all_ptrs) s (c0 :: chunks) = one_call (d_call blk o fn fn all_ptrs) s (concat (c0 :: chunks))
+  /\ accepted (one_call (d_call blk o fn fn all_ptrs) s (concat (c0 :: chunks))).
+Proof.
+  intros blk o fn s c0 chunks Hfn Hop [[Hivl Hivb] Hoff].
+  destruct fn; try discriminate Hfn.
+  - assert (Hfg : forall s m, off_inv 8 s -> d_call blk o CFB CFB all_ptrs s m = run_cfb 8 blk (is_enc o) s m).
+    { intros s0 m0 H0. unfold d_call, d_cfb64. d_cbn. rewrite (off_ok_true 8 s0 H0), Hop. d_cbn. reflexivity. }
+    rewrite (run_calls_ext (off_inv 8) _ _ Hfg (fun s m => run_cfb_inv 8 blk mask8_lt (is_enc o) s m) _ s Hoff).
+    rewrite run_cfb_partition. unfold one_call. rewrite (Hfg s _ Hoff). split; [reflexivity|].
+    unfold accepted, run_cfb. destruct (cfb_loop _ _ _ _ _ _) as [[? ?] ?]. reflexivity.
+  - assert (Hfg : forall s m, off_inv 8 s -> d_call blk o OFB OFB all_ptrs s m = run_ofb 8 blk s m).
+    { intros s0 m0 H0. unfold d_call, d_ofb64. d_cbn. rewrite (off_ok_true 8 s0 H0). d_cbn. reflexivity. }
+    rewrite (run_calls_ext (off_inv 8) _ _ Hfg (fun s m => run_ofb_inv 8 blk mask8_lt s m) _ s Hoff).
+    rewrite run_ofb_partition. unfold one_call. rewrite (Hfg s _ Hoff). split; [reflexivity|].
+    unfold accepted, run_ofb. destruct (ofb_loop _ _ _ _ _) as [[? ?] ?]. reflexivity.
+  - assert (Hfg : forall s m, ctr_inv 8 s -> d_call blk o CTR CTR all_ptrs s m = run_ctr 8 blk 1 incr_des s m).
+    { intros s0 m0 [H0 _]. unfold d_call, d_ctr. d_cbn. rewrite (off_ok_true 8 s0 H0). d_cbn. reflexivity. }
+    rewrite (run_calls_ext (ctr_inv 8) _ _ Hfg (fun s m => run_ctr_inv 8 blk 1 incr_des mask8_lt s m) _ s (conj Hoff Hivb)).
+    rewrite (run_ctr_partition 8 blk 1 incr_des incr_des_wfw) by exact Hivb.
+    unfold one_call. rewrite (Hfg s _ (conj Hoff Hivb)). split; [reflexivity|].
+    unfold accepted, run_ctr. destruct (ctr_loop _ _ _ _ _ _ _) as [[[? ?] ?] ?]. reflexivity.
+Qed.
+
+(* ---------- rejected calls write nothing and leave the chaining state alone ---------- *)
+Lemma run_ok : forall bs blk nw incr s m enc,
+  r_err (run_ecb bs blk s m) = OK /\ r_err (run_cbc bs blk enc s m) = OK /\ r_err (run_cfb bs blk enc s m) = OK /\
+  r_err (run_ofb bs blk s m) = OK /\ r_err (run_ctr bs blk nw incr s m) = OK.
+Proof.
+  intros. unfold run_ecb, run_cbc, run_cfb, run_ofb, run_ctr. repeat split.
+  - destruct enc; [destruct (cbc_enc_loop _ _ _ _ _)|destruct (cbc_dec_loop _ _ _ _ _)]; reflexivity.
+  - destruct (cfb_loop _ _ _ _ _ _) as [[? ?] ?]. reflexivity.
+  - destruct (ofb_loop _ _ _ _ _) as [[? ?] ?]. reflexivity.
+  - destruct (ctr_loop _ _ _ _ _ _ _) as [[[? ?] ?] ?]. reflexivity.
+Qed.
+
+Ltac reject_tac :=
+  match goal with
+  | |- context [match first_err ?l with _ => _ end] =>
+    destruct (first_err l) eqn:?; cbn [fail r_err r_out r_st]; auto; intros Hne; exfalso; apply Hne
+  end.
+
+Theorem aes_reject_writes_nothing : forall fn p c s m,
+  r_err (aes_call fn p c s m) <> OK -> r_out (aes_call fn p c s m) = None /\ r_st (aes_call fn p c s m) = s.
+Proof.
+  intros fn p c s m.
+  destruct (run_ok 16 (aes_crypt (a_op c) (a_rk c)) 2%nat incr_aes s m (is_enc (a_op c))) as (R1 & R2 & _).
+  destruct (run_ok 16 (cipher (a_rk c)) 2%nat incr_aes s m (is_enc (a_op c))) as (_ & _ & R3 & R4 & R5).
+  destruct fn; unfold aes_call, aes_ecb, aes_cbc, aes_cfb128, aes_ofb128, aes_ctr; try reject_tac; auto.
+Qed.
+
+Theorem d_reject_writes_nothing : forall blk o cm fn p s m,
+  r_err (d_call blk o cm fn p s m) <> OK -> r_out (d_call blk o cm fn p s m) = None /\ r_st (d_call blk o cm fn p s m) = s.
+Proof.
+  intros blk o cm fn p s m.
+  destruct (run_ok 8 blk 1%nat incr_des s m (is_enc o)) as (R1 & R2 & R3 & R4 & R5).
+  destruct fn; unfold d_call, d_ecb, d_cbc, d_cfb64, d_ofb64, d_ctr; try reject_tac; auto.
+Qed.
+
+(* ---------- what is rejected ---------- *)
+Definition call_valid (bs : nat) (fn cm : mode) (p : ptrs) (s : st) (m : list N) : bool :=
+  p_ctx p && mode_eqb cm fn && p_in p && p_out p &&
+  (if block_mode fn then len_ok bs m else true) &&
+  (match fn with ECB => true | _ => p_iv p end) &&
+  (if stream_mode fn then p_off p && off_ok bs s else true) &&
+  (match fn with CTR => p_sb p | _ => true end).
+
+(* an invalid call (NULL pointer, mode function not matching the context, length not a block multiple
+   in ECB/CBC, offset >= block size) is rejected *)
+Theorem aes_invalid_rejected : forall fn p c s m,
+  call_valid 16 fn (a_mode c) p s m = false -> r_err (aes_call fn p c s m) <> OK.
+Proof.
+  intros fn p c s m H. destruct p as [pc pi po pv pf ps]. unfold call_valid in H. cbn [p_ctx p_in p_out p_iv p_off p_sb] in H.
+  destruct fn; unfold aes_call, aes_ecb, aes_cbc, aes_cfb128, aes_ofb128, aes_ctr, fail;
+    cbn [block_mode stream_mode p_ctx p_in p_out p_iv p_off p_sb first_err] in *;
+    try (cbn; discriminate);
+    destruct pc, (mode_eqb (a_mode c) _), pi, po, pv, pf, ps, (len_ok 16 m), (off_ok 16 s); cbn in H; try discriminate H;
+    cbn [r_err]; try discriminate; destruct (op_valid (a_op c)); cbn [r_err]; discriminate.
+Qed.
+
+Theorem d_invalid_rejected : forall blk o cm fn p s m,
+  call_valid 8 fn cm p s m = false -> r_err (d_call blk o cm fn p s m) <> OK.
+Proof.
+  intros blk o cm fn p s m H. destruct p as [pc pi po pv pf ps]. unfold call_valid in H. cbn [p_ctx p_in p_out p_iv p_off p_sb] in H.
+  destruct fn; unfold d_call, d_ecb, d_cbc, d_cfb64, d_ofb64, d_ctr, fail;
+    cbn [block_mode stream_mode p_ctx p_in p_out p_iv p_off p_sb first_err] in *;
+    try (cbn; discriminate);
+    destruct pc, (mode_eqb cm _), pi, po, pv, pf, ps, (len_ok 8 m), (off_ok 8 s); cbn in H; try discriminate H;
+    cbn [r_err]; try discriminate; destruct (op_valid o); cbn [r_err]; discriminate.
+Qed.
+
+(* ... and a valid call on a context set up by set_key is accepted *)
+Theorem aes_valid_accepted : forall fn p c s m,
+  call_valid 16 fn (a_mode c) p s m = true -> op_valid (a_op c) = true -> r_err (aes_call fn p c s m) = OK.
+Proof.
+  intros fn p c s m H Hop. destruct p as [pc pi po pv pf ps]. unfold call_valid in H. cbn [p_ctx p_in p_out p_iv p_off p_sb] in H.
+  destruct (run_ok 16 (aes_crypt (a_op c) (a_rk c)) 2%nat incr_aes s m (is_enc (a_op c))) as (R1 & R2 & _).
+  destruct (run_ok 16 (cipher (a_rk c)) 2%nat incr_aes s m (is_enc (a_op c))) as (_ & _ & R3 & R4 & R5).
+  assert (Hbad : forall x, mode_eqb x ModeBad = false) by (destruct x; reflexivity).
+  destruct fn; rewrite ?Hbad, ?andb_false_r in H; cbn [andb] in H; try discriminate H;
+    unfold aes_call, aes_ecb, aes_cbc, aes_cfb128, aes_ofb128, aes_ctr;
+    cbn [block_mode stream_mode p_ctx p_in p_out p_iv p_off p_sb] in *;
+    destruct pc, (mode_eqb (a_mode c) _), pi, po, pv, pf, ps, (len_ok 16 m), (off_ok 16 s); cbn in H; try discriminate H;
+    rewrite ?Hop; cbn [first_err]; assumption.
+Qed.
+
+Theorem d_valid_accepted : forall blk o cm fn p s m,
+  call_valid 8 fn cm p s m = true -> op_valid o = true -> r_err (d_call blk o cm fn p s m) = OK.
+Proof.
+  intros blk o cm fn p s m H Hop. destruct p as [pc pi po pv pf ps]. unfold call_valid in H. cbn [p_ctx p_in p_out p_iv p_off p_sb] in H.
+  destruct (run_ok 8 blk 1%nat incr_des s m (is_enc o)) as (R1 & R2 & R3 & R4 & R5).
+  assert (Hbad : forall x, mode_eqb x ModeBad = false) by (destruct x; reflexivity).
+  destruct fn; rewrite ?Hbad, ?andb_false_r in H; cbn [andb] in H; try discriminate H;
+    unfold d_call, d_ecb, d_cbc, d_cfb64, d_ofb64, d_ctr;
+    cbn [block_mode stream_mode p_ctx p_in p_out p_iv p_off p_sb] in *;
+    destruct pc, (mode_eqb cm _), pi, po, pv, pf, ps, (len_ok 8 m), (off_ok 8 s); cbn in H; try discriminate H;
+    rewrite ?Hop; cbn [first_err]; assumption.
+Qed.
